@@ -244,6 +244,8 @@ def direct_checks(case, o, impl):
         c = o.covobs[cn]
         j = np.asarray(c.grad, dtype=float).ravel()
         ref = float(j @ COV_ORIG[cn] @ j)
+        if not close(float(c.errsq()), ref, rtol=1e-12):
+            probs.append('covariance input %s: errsq() %r vs J Sigma J^T %r' % (cn, float(c.errsq()), ref))
         if not close(impl['cov'][cn] ** 2, ref, rtol=1e-10):
             probs.append('covariance input %s: %r vs J Sigma J^T %r' % (cn, impl['cov'][cn] ** 2, ref))
     # S = 0: naive standard error of the mean
